@@ -276,6 +276,27 @@ theorem treeOf_append_of_lt (w : World V) (x : SysRec) {s : Nat} (hs : s < w.sys
   simp only
   rw [List.getElem?_append_left hs]
 
+/-- a new system on a new object: the others keep their trees -/
+theorem treeOf_append_both (w : World V) (hr : RefsOK w) (t : PNode V) (x : SysRec) {s : Nat} (hs : s < w.systems.length) :
+    ({ w with heap := w.heap ++ [t], systems := w.systems ++ [x] } : World V).treeOf s = w.treeOf s := by
+  unfold World.treeOf
+  simp only
+  rw [List.getElem?_append_left hs, List.getElem?_eq_getElem hs]
+  simp only
+  cases hk : (w.systems[s]).tree with
+  | none => rfl
+  | some k =>
+    simp only
+    have : k < w.heap.length := hr _ (List.getElem_mem _) k hk
+    rw [List.getElem?_append_left this]
+
+/-- … and the new system reads the copy -/
+theorem treeOf_append_new (w : World V) (t : PNode V) (b : Option Nat) :
+    ({ w with heap := w.heap ++ [t], systems := w.systems ++ [⟨some w.heap.length, b⟩] } : World V).treeOf w.systems.length
+      = some t := by
+  unfold World.treeOf
+  simp
+
 /-! ## A copy of one's own -/
 
 theorem ownCopy_systems_length (w : World V) (s i : Nat) : (ownCopy w s i).1.systems.length = w.systems.length := by
@@ -450,6 +471,29 @@ theorem step_memoOK (w : World V) (hw : MemoOK w) (op : Op V) : MemoOK (step w o
               intro r' hr' k hk
               simp only [List.length_set]
               exact hr1 r' hr' k hk
+  | cloneSys s =>
+    simp only [step]
+    cases hr : w.systems[s]? with
+    | none => exact hw
+    | some r =>
+      simp only
+      cases ht : w.treeOf s with
+      | none => exact hw
+      | some t =>
+        simp only
+        refine ⟨?_, ?_⟩
+        · intro r' hr' i hi
+          simp only [List.mem_append, List.mem_cons, List.not_mem_nil, or_false] at hr'
+          simp only [List.length_append, List.length_cons, List.length_nil]
+          rcases hr' with hr' | hr'
+          · have := hw.1 r' hr' i hi; omega
+          · rw [hr'] at hi
+            simp only [Option.some.injEq] at hi
+            omega
+        · intro k v hkv
+          obtain ⟨h1, h2⟩ := hw.2 k v hkv
+          refine ⟨by simp only [List.length_append, List.length_cons, List.length_nil]; omega, ?_⟩
+          rw [treeOf_append_both w hw.1 t _ h1]; exact h2
 
 theorem run_memoOK (w : World V) (hw : MemoOK w) (ops : List (Op V)) : MemoOK (run w ops) := by
   induction ops generalizing w with
@@ -545,6 +589,15 @@ theorem step_length_le (w : World V) (op : Op V) : w.systems.length ≤ (step w 
             | param l => simp only [hl]; exact Nat.le_refl _
             | scale m bs => simp only [hl]; exact Nat.le_refl _
             | node cs => simp only [hl]; exact Nat.le_refl _
+  | cloneSys s =>
+    simp only [step]
+    cases hr : w.systems[s]? with
+    | none => exact Nat.le_refl _
+    | some r =>
+      simp only
+      cases ht : w.treeOf s with
+      | none => exact Nat.le_refl _
+      | some t => simp only [List.length_append, List.length_cons, List.length_nil]; omega
 
 /-- an operation that spares `s'` (`Op.spares`) leaves the tree of `s'` alone -/
 theorem step_treeOf_other (w : World V) (hw : RefsOK w) (op : Op V) (s' : Nat) (hs' : s' < w.systems.length)
@@ -654,6 +707,15 @@ theorem step_treeOf_other (w : World V) (hw : RefsOK w) (op : Op V) (s' : Nat) (
             | param l => exact k1
             | scale m bs => exact k1
             | node cs => rw [treeOf_set_ne w1 j _ [] s' k2]; exact k1
+  | cloneSys s =>
+    simp only [step]
+    cases hr : w.systems[s]? with
+    | none => rfl
+    | some r =>
+      simp only
+      cases ht : w.treeOf s with
+      | none => rfl
+      | some t => exact treeOf_append_both w hw t _ hs'
 
 theorem run_treeOf_other (w : World V) (hw : MemoOK w) (ops : List (Op V)) (s' : Nat) (hs' : s' < w.systems.length)
     (ht : Spared s' w ops) :
@@ -684,6 +746,7 @@ theorem spared_of_static (w : World V) (ops : List (Op V)) (s' : Nat)
     | modify s f => simp only [Op.spares, bne_iff_ne, ne_eq]; intro c; exact h1 (by rw [c]; rfl)
     | reload s cs hook => simp only [Op.spares, bne_iff_ne, ne_eq]; intro c; exact h1 (by rw [c]; rfl)
     | extend s ext => simp [Op.inPlace] at h2
+    | cloneSys s => rfl
 
 /-! ## Attribute paths commute with evaluation at an instant -/
 
@@ -1694,6 +1757,55 @@ theorem fancy_field_spec (num : V → Option W) (cs : List (String × Snap V)) (
       rw [hfy] at hfi
       refine ⟨cs', c', y, hc, hc', hy, ?_⟩
       rw [List.getElem?_eq_getElem hi'', ← Option.some.inj hfi]
+
+/-! ## Chained as-of-date indexing (several rows) -/
+
+theorem asofPairs_spec (ps : List (VRow W × Int)) (out : List (VRow W)) (h : asofPairs ps = .ok out) :
+    out.length = ps.length ∧
+    ∀ i (hi : i < ps.length), ∃ x, out[i]? = some x ∧ asofOne ps[i].1 ps[i].2 = .ok x := by
+  induction ps generalizing out with
+  | nil =>
+    simp only [asofPairs] at h
+    cases h
+    exact ⟨rfl, fun i hi => by cases hi⟩
+  | cons p ps ih =>
+    obtain ⟨r, t⟩ := p
+    simp only [asofPairs] at h
+    cases h1 : asofOne r t with
+    | error e => rw [h1] at h; cases h
+    | ok x =>
+      cases h2 : asofPairs ps with
+      | error e => rw [h1, h2] at h; cases h
+      | ok xs =>
+        rw [h1, h2] at h
+        cases h
+        obtain ⟨l1, l2⟩ := ih xs h2
+        refine ⟨by simp [l1], fun i hi => ?_⟩
+        cases i with
+        | zero => exact ⟨x, rfl, h1⟩
+        | succ j => simpa using l2 j (by simpa using hi)
+
+/-- indexing one row by one date is `asofOne` -/
+theorem asofIndex_single (r : VRow W) (t : Int) (out : List (VRow W)) (h : asofIndex r [t] = .ok out) :
+    ∃ x, out = [x] ∧ asofOne r t = .ok x := by
+  cases r with
+  | leaf w => simp only [asofIndex] at h; cases h
+  | record fs =>
+    simp only [asofIndex] at h
+    cases ha : afterDates (fs.map (·.1)) with
+    | none => rw [ha] at h; cases h
+    | some ads =>
+      rw [ha] at h
+      cases ads with
+      | nil => cases h
+      | cons a ads =>
+        simp only [asofPick] at h
+        cases hx : (fs.map (·.2))[countLE (a :: ads) t]? with
+        | none => rw [hx] at h; cases h
+        | some x =>
+          rw [hx] at h
+          cases h
+          exact ⟨x, rfl, by simp only [asofOne, ha, hx]⟩
 
 /-! ## `merge` -/
 
